@@ -44,7 +44,11 @@ impl<F> RankCalc<F> {
                     // the rank computed from this iteration.
                     ranks[child_fn_id.index()] = cmp::max(child_rank_existing, child_rank_maybe);
 
-                    fn_ids.push_back(child_fn_id);
+                    // Only revisit the child when its rank was raised, otherwise every path to
+                    // a function is walked, which is exponential for dense graphs.
+                    if child_rank_maybe > child_rank_existing {
+                        fn_ids.push_back(child_fn_id);
+                    }
                 });
         }
 
